@@ -163,6 +163,13 @@ class Facts:
         self.config = config
         self.fns = {k: Fn(v) for k, v in cfgfacts["functions"].items()}
         self.records = {r["name"]: r for r in cfgfacts["records"].values()}
+        for r0 in self.records.values():
+            outer = strip_tmpl(r0["name"]).rsplit("::", 1)[0] if "::" in strip_tmpl(r0["name"]) else None
+            if outer and any(strip_tmpl(x) == outer for x in self.records):
+                for f0 in r0.get("fields", []):
+                    t0 = strip_tmpl((f0.get("type") or "").replace("const ", "").replace("*", "").strip())
+                    if "*" in (f0.get("type") or "") and (t0 == outer or t0 == outer.split("::")[-1] or outer.endswith("::" + t0)):
+                        BACK_POINTERS.add(strip_tmpl(r0["name"]) + "::" + f0["name"])
         for r_ in self.records.values():
             RECORD_FIELDS[r_["name"]] = [f_.get("name") for f_ in r_.get("fields", [])]
         self.globals = cfgfacts["globals"]
@@ -436,6 +443,7 @@ def through_param(n, _depth=0):
 
 
 RECORD_FIELDS = {}  # record name -> field names in declaration order (lets value tracking see through aggregates returned by helpers)
+BACK_POINTERS = set()   # qualified names of fields of a nested helper class that point back to the enclosing object (Worker::m_handler)
 FIELD_ALIAS = {}    # canonical qualified field name -> {actual qualified names}: lets a rule name a field by its role (see rules/oth.py)
 
 
@@ -470,6 +478,14 @@ def is_this_field(n, qname):
         if b.get("k") == "member" and b.get("dk") == "field" and not cur.get("arrow"):
             cur = b
             continue
+        # ... unless it is the back pointer of this object's own nested helper: this->m_worker->m_handler->F is this->F (code of the helper
+        # spliced into a method of the enclosing class)
+        if b.get("k") == "member" and b.get("dk") == "field" and cur.get("arrow") and strip_tmpl(b.get("name") or "") in BACK_POINTERS:
+            bb = skip_copies(b.get("base")) if isinstance(b.get("base"), dict) else None
+            if isinstance(bb, dict) and bb.get("k") == "member" and bb.get("dk") == "field" and b.get("arrow"):
+                b3 = skip_copies(bb.get("base")) if isinstance(bb.get("base"), dict) else None
+                if isinstance(b3, dict) and b3.get("k") == "this":
+                    return True
         return False
     return False
 
